@@ -379,6 +379,6 @@ def corpus_cases(draw):
 
 def parts(tier):
     return [
-        Hyp("generated-variants", variants, quick=2500, thorough=60000),
-        Hyp("corpus-variants", corpus_cases, quick=1200, thorough=30000),
+        Hyp("generated-variants", variants, quick=5000, thorough=60000),
+        Hyp("corpus-variants", corpus_cases, quick=2000, thorough=30000),
     ]
